@@ -1,5 +1,6 @@
 import GtfsVerif.Lemmas.Journal
 import GtfsVerif.Lemmas.Decimal
+import GtfsVerif.Gen.JournalFacts
 /-! # C15 — the journal holds one correctly accounted entry per assigned trip in the window
 
 Model: `Gtfs.Journal.build fs lo hi = select (run fs) lo hi` (Model/Journal.lean), where `run` is
@@ -204,6 +205,34 @@ theorem C15_uid_collision : ¬ C15_uid_injective_full := by
   intro h
   have := h 100 1005 [53] [] (by decide)
   omega
+
+/-! ## the UID as journal.go builds it now
+
+`Gen.JournalFacts` is read from `buildTripUID` on every run: the prefix length (the length test and
+the cut must agree) and the `Sprintf` format. `sprintf2` is the fragment of `fmt.Sprintf` that format
+uses: `%d` prints the next argument – the start instant – in decimal, `%s` the next – the rest of the
+id – verbatim, `%%` a percent sign, any other byte itself; a verb of the wrong kind or a missing
+argument is not modelled. -/
+
+inductive FmtArg | int (i : Int) | str (s : Str)
+
+def sprintf2 : Str → List FmtArg → Option Str
+  | [], _ => some []
+  | 37 :: 100 :: r, .int i :: as => (sprintf2 r as).map (intToDec i ++ ·)
+  | 37 :: 115 :: r, .str s :: as => (sprintf2 r as).map (s ++ ·)
+  | 37 :: 37 :: r, as => (sprintf2 r as).map (37 :: ·)
+  | 37 :: _, _ => none
+  | c :: r, as => (sprintf2 r as).map (c :: ·)
+
+/-- **the model's UID is the source's**: for every start instant and id, `uidOf` is today's format
+    applied to the instant and the id without today's prefix length (nothing when it is shorter) -/
+theorem C15_uid_is_source_format (start : Int) (id : Str) :
+    sprintf2 Gen.JournalFacts.uidFormat
+      [.int start, .str (if id.length < Gen.JournalFacts.uidPrefixLen then [] else id.drop Gen.JournalFacts.uidPrefixLen)]
+      = some (uidOf start id) := by
+  by_cases h : id.length < 6
+  · simp [sprintf2, Gen.JournalFacts.uidFormat, Gen.JournalFacts.uidPrefixLen, uidOf, h]
+  · simp [sprintf2, Gen.JournalFacts.uidFormat, Gen.JournalFacts.uidPrefixLen, uidOf, h]
 
 /-! ## non-vacuity -/
 
